@@ -510,6 +510,7 @@ type c05GKey struct {
 }
 
 type c05GNode struct {
+	start  uint32 // each reporting node has its own connection-tracking start time
 	end    uint32
 	totals map[string]uint64
 	n      int
@@ -557,14 +558,18 @@ func c05Record(rng *Rng, cfg *c05Config, k *c05GKey, node int, breach int, tpl [
 	}
 	end := nd.end + step
 	if nd.n == 0 {
-		end = k.start + 1 + uint32(rng.Intn(20))
-		if big != 0 && uint64(k.start)+uint64(big) <= 0xFFFFFFFF {
-			end = k.start + big
+		nd.start = k.start
+		if rng.Intn(3) == 0 && k.start < 0xFFFF0000 {
+			nd.start = k.start + uint32(rng.Intn(40)) // the nodes do not agree on the start time
+		}
+		end = nd.start + 1 + uint32(rng.Intn(20))
+		if big != 0 && uint64(nd.start)+uint64(big) <= 0xFFFFFFFF {
+			end = nd.start + big
 		}
 	} else if big != 0 && uint64(nd.end)+uint64(big) <= 0xFFFFFFFF {
 		end = nd.end + big
 	}
-	start := k.start
+	start := nd.start
 	flowType := k.flowType
 	switch breach {
 	case 1: // end time not increasing for this node
@@ -777,9 +782,40 @@ func c05GenHistory(env *Env, cfgName string, nops, nkeys, mode int) string {
 		}
 		tpls = append(tpls, v)
 	}
+	if mode == 3 {
+		// another layout of the same IPv4 fields (another template version / another exporter):
+		// shuffled, reversed, or the forward and reverse counters in each other's places
+		v := append([]c05Field{}, c05Template(cfg, false)...)
+		switch rng.Intn(3) {
+		case 0:
+			for i := len(v) - 1; i > 0; i-- {
+				j := rng.Intn(i + 1)
+				v[i], v[j] = v[j], v[i]
+			}
+		case 1:
+			for i, j := 0, len(v)-1; i < j; i, j = i+1, j-1 {
+				v[i], v[j] = v[j], v[i]
+			}
+		case 2:
+			pos := map[string]int{}
+			for i, f := range v {
+				pos[f.name] = i
+			}
+			for i, f := range v {
+				if strings.HasPrefix(f.name, "reverse") {
+					continue
+				}
+				rn := "reverse" + strings.ToUpper(f.name[:1]) + f.name[1:]
+				if j, ok := pos[rn]; ok && (rng.Intn(3) != 0) {
+					v[i], v[j] = v[j], v[i]
+				}
+			}
+		}
+		tpls = append(tpls, v)
+	}
 	keys := make([]*c05GKey, nkeys)
 	for i := range keys {
-		keys[i] = c05NewKey(rng, i, rng.Intn(3) == 0)
+		keys[i] = c05NewKey(rng, i, mode != 3 && rng.Intn(3) == 0)
 	}
 	var sb strings.Builder
 	fmt.Fprintf(&sb, "C05 %s %s", cfgName, c05TplToks(tpls))
@@ -792,7 +828,7 @@ func c05GenHistory(env *Env, cfgName string, nops, nkeys, mode int) string {
 		}
 		node := rng.Intn(2)
 		breach := 0
-		if mode >= 1 && rng.Intn(4) == 0 {
+		if mode >= 1 && mode != 3 && rng.Intn(4) == 0 {
 			breach = 1 + rng.Intn(5)
 			env.Count(fmt.Sprintf("breach:%d", breach))
 		}
@@ -803,6 +839,10 @@ func c05GenHistory(env *Env, cfgName string, nops, nkeys, mode int) string {
 		if mode == 2 && !k.v6 && rng.Intn(3) == 0 {
 			ti = 2
 			env.Count("op:illtyped-record")
+		}
+		if mode == 3 && !k.v6 && rng.Bool() {
+			ti = 2
+			env.Count("op:record-in-other-layout")
 		}
 		vals := c05Record(rng, cfg, k, node, breach, tpls[ti])
 		fmt.Fprintf(&sb, " ; R %d %s", ti, strings.Join(vals, " "))
@@ -944,6 +984,10 @@ func runC05(env *Env) {
 	for i := 0; i < nbreach; i++ {
 		emit(c05GenHistory(env, cfgs[i%2], 10+env.Rng.Intn(51), 1+env.Rng.Intn(4), 1))
 		env.Count("history:contract-breached")
+	}
+	for i := 0; i < nlong; i++ {
+		emit(c05GenHistory(env, cfgs[i%2], 4+env.Rng.Intn(30), 1+env.Rng.Intn(3), 3))
+		env.Count("history:mixed-layouts")
 	}
 	for i := 0; i < nill; i++ {
 		emit(c05GenHistory(env, cfgs[i%2], 5+env.Rng.Intn(30), 1+env.Rng.Intn(3), 2))
